@@ -476,3 +476,508 @@ def mon_C03(sc, trace):
                     if hit is not None:
                         pend[n].remove(hit)
     return v
+
+
+# ------------------------------------------------------------------------------------------------
+# C07 .. C13, C18 (whole simulations)
+# ------------------------------------------------------------------------------------------------
+
+def mon_C07(sc, trace):
+    v = []
+    if not has(sc, "T"):
+        return v
+    P = parse(trace)
+    pend = defaultdict(list)        # node -> [(name, ts)] pending, in set order
+    cur = None
+    for t in P:
+        if t[0] == "cb":
+            n, tm, kind = int(t[1]), fh(t[2]), t[3]
+            cur = (n, tm)
+            if kind == "timer":
+                name = int(t[4]) if t[4].isdigit() else None
+                if (name, tm) in pend[n]:
+                    pend[n].remove((name, tm))
+                else:
+                    others = [m for m in pend if (name, tm) in pend[m]]
+                    if others:
+                        v.append("C07: timer %s set by node %d for %r fired on node %d" % (t[4], others[0], tm, n))
+                    elif any(nm == name for nm, _ in pend[n]):
+                        v.append("C07: node %d timer %s fired at %r, its pending requests are for %s"
+                                 % (n, t[4], tm, sorted(ts for nm, ts in pend[n] if nm == name)))
+                    else:
+                        v.append("C07: node %d timer %s fired at %r although no such timer is pending (cancelled, already fired, or never set)"
+                                 % (n, t[4], tm))
+        elif t[0] == "act" and cur is not None:
+            n, now = int(t[1]), cur[1]
+            if t[2] == "settimer":
+                name, ts, res = int(t[3]), fh(t[4]), t[5]
+                if ts < now and res != "errtimer":
+                    v.append("C07: node %d timer %d for %r in the past of %r was not refused (%s)" % (n, name, ts, now, res))
+                if ts >= now and res != "ok":
+                    v.append("C07: node %d timer %d for %r (now %r) was refused (%s)" % (n, name, ts, now, res))
+                if res == "ok":
+                    pend[n].append((name, ts))
+            elif t[2] == "cancel":
+                if t[-1] != "ok":
+                    v.append("C07: node %d cancel_timer(%s) raised %s" % (n, t[3], t[-1]))
+                pend[n] = [e for e in pend[n] if e[0] != int(t[3])]
+    exhausted = (P and P[-1][0] == "end" and P[-1][1] == "done" and sc["dur"] is None and sc["maxit"] is None
+                 and sc["drv"][0] == "run")
+    if exhausted:
+        fin = next((i for i, t in enumerate(P) if t[0] == "cb" and t[3] == "finish"), len(P))
+        pend2 = defaultdict(list)
+        for t in P[:fin]:
+            if t[0] == "cb" and t[3] == "timer" and t[4].isdigit():
+                e = (int(t[4]), fh(t[2]))
+                if e in pend2[int(t[1])]:
+                    pend2[int(t[1])].remove(e)
+            elif t[0] == "act" and t[2] == "settimer" and t[-1] == "ok":
+                pend2[int(t[1])].append((int(t[3]), fh(t[4])))
+            elif t[0] == "act" and t[2] == "cancel":
+                pend2[int(t[1])] = [e for e in pend2[int(t[1])] if e[0] != int(t[3])]
+        for n, lst in pend2.items():
+            if lst:
+                v.append("C07: run ended by exhaustion but node %d timers %s (name, time) never fired" % (n, lst))
+    return v
+
+
+def _expected_packets(sc, P, receivers):
+    """receivers(sender, now, k) -> list of destination ids for the k-th transmission attempt block"""
+    raise NotImplementedError
+
+
+def mon_C08(sc, trace):
+    """loss-free medium, everybody in range"""
+    v = []
+    if not has(sc, "C"):
+        return v
+    rng, delay, fail = sc["med"]
+    nn = len(sc["nodes"])
+    T = has(sc, "T")
+    P = parse(trace)
+    exp = defaultdict(list)       # (dst, msg) -> [delivery times expected]
+    cur = None
+    for t in P:
+        if t[0] == "cb":
+            n, tm, kind = int(t[1]), fh(t[2]), t[3]
+            cur = (n, tm)
+            if kind == "packet":
+                if not t[4].isdigit():
+                    v.append("C08: node %d received a corrupted payload %s" % (n, t[4]))
+                    continue
+                key = (n, int(t[4]))
+                if T:
+                    if tm in exp[key]:
+                        exp[key].remove(tm)
+                    elif exp[key]:
+                        v.append("C08: node %d received message %s at %r, expected at %s (send time + delay)" % (n, t[4], tm, exp[key]))
+                        exp[key].pop(0)
+                    else:
+                        v.append("C08: node %d received message %s that was not addressed to it (or once too often)" % (n, t[4]))
+                else:
+                    if exp[key]:
+                        exp[key].pop(0)
+                    else:
+                        v.append("C08: node %d received message %s that was not addressed to it (or once too often)" % (n, t[4]))
+        elif t[0] == "act" and cur is not None and t[2] in ("send", "bcast"):
+            n, now = int(t[1]), cur[1]
+            due = now + delay if delay > 0 else now
+            if t[2] == "send":
+                dst = None if t[4] == "none" else int(t[4])
+                bad = dst is None or dst == n or dst >= nn
+                if bad and t[-1] != "errcomm":
+                    v.append("C08: node %d send to %s did not raise CommunicationException (%s)" % (n, t[4], t[-1]))
+                if not bad and t[-1] != "ok":
+                    v.append("C08: node %d send to node %d raised %s" % (n, dst, t[-1]))
+                if t[-1] == "ok" and not bad:
+                    exp[(dst, int(t[3]))].append(due)
+            else:
+                if t[-1] != "ok":
+                    v.append("C08: node %d broadcast raised %s" % (n, t[-1]))
+                else:
+                    for d in range(nn):
+                        if d != n:
+                            exp[(d, int(t[3]))].append(due)
+    exhausted = (P and P[-1][0] == "end" and P[-1][1] == "done" and sc["dur"] is None and sc["maxit"] is None
+                 and sc["drv"][0] == "run")
+    if exhausted:
+        fin = next((i for i, t in enumerate(P) if t[0] == "cb" and t[3] == "finish"), len(P))
+        # copies requested from inside finish() are never delivered by design
+        late = defaultdict(int)
+        cur = None
+        for t in P[fin:]:
+            if t[0] == "cb":
+                cur = int(t[1])
+            elif t[0] == "act" and t[-1] == "ok" and t[2] == "send" and t[4] != "none":
+                late[(int(t[4]), int(t[3]))] += 1
+            elif t[0] == "act" and t[-1] == "ok" and t[2] == "bcast":
+                for d in range(nn):
+                    if d != int(t[1]):
+                        late[(d, int(t[3]))] += 1
+        for key, lst in exp.items():
+            missing = len(lst) - late.get(key, 0)
+            if missing > 0:
+                v.append("C08: %d cop(ies) of message %d for node %d were never delivered" % (missing, key[1], key[0]))
+    return v
+
+
+def _py_sq(a, b):
+    return (b[0] - a[0]) ** 2 + (b[1] - a[1]) ** 2 + (b[2] - a[2]) ** 2
+
+
+def _positions_timeline(sc, P):
+    """per node: list of telemetry positions in order"""
+    tl = defaultdict(list)
+    for t in P:
+        if t[0] == "cb" and t[3] == "telem":
+            tl[int(t[1])].append((fh(t[4]), fh(t[5]), fh(t[6])))
+    return tl
+
+
+def mon_C09(sc, trace, draws_pass=None):
+    """delivery iff within the sender's current range at the positions of the send instant;
+    `draws_pass(k)` tells whether the k-th attempted copy survives the loss draw (None = loss-free)."""
+    v = []
+    if not has(sc, "C"):
+        return v
+    rng0, delay, fail = sc["med"]
+    if fail > 0 and draws_pass is None:
+        return v
+    nn = len(sc["nodes"])
+    P = parse(trace)
+    tl = _positions_timeline(sc, P)
+    pos = [tuple(nd["pos"]) for nd in sc["nodes"]]
+    seen = [0] * nn
+    stale = False
+    rng = [rng0] * nn
+    exp = defaultdict(int)
+    unexpected_ok = defaultdict(int)
+    cur = None
+    k = 0
+    dur = sc["dur"]
+    M = has(sc, "M")
+    for t in P:
+        if t[0] == "cb":
+            n, tm, kind = int(t[1]), fh(t[2]), t[3]
+            cur = (n, tm)
+            if kind == "telem":
+                seen[n] += 1
+                idx = seen[n] - 1
+                # a mobility update moves all nodes at once: learn every node's position of this update
+                stale = False
+                for m in range(nn):
+                    if len(tl[m]) > idx:
+                        pos[m] = tl[m][idx]
+                    elif M:
+                        stale = True
+            elif kind == "packet" and t[4].isdigit():
+                key = (n, int(t[4]))
+                if exp[key] > 0:
+                    exp[key] -= 1
+                elif unexpected_ok[key] > 0:
+                    unexpected_ok[key] -= 1
+                else:
+                    v.append("C09: node %d received message %s although it was out of the sender's range at send time "
+                             "(or was never sent to it)" % (n, t[4]))
+        elif t[0] == "act" and cur is not None and t[-1] == "ok":
+            n, now = int(t[1]), cur[1]
+            if t[2] == "range" and has(sc, "C"):
+                rng[n] = fh(t[3])
+            elif t[2] in ("send", "bcast"):
+                dsts = [int(t[4])] if t[2] == "send" else [d for d in range(nn) if d != n]
+                for d in dsts:
+                    survives = True if fail <= 0 else draws_pass(k)
+                    k += 1
+                    due = now + delay if delay > 0 else now
+                    if stale:
+                        unexpected_ok[(d, int(t[3]))] += 1
+                        continue
+                    inr = _py_sq(pos[n], pos[d]) <= rng[n] ** 2
+                    if inr and survives and (dur is None or not has(sc, "T") or due <= dur):
+                        exp[(d, int(t[3]))] += 1
+    done = P and P[-1][0] == "end" and P[-1][1] == "done" and sc["maxit"] is None and sc["drv"][0] == "run"
+    if done and has(sc, "T"):
+        fin = next((i for i, t in enumerate(P) if t[0] == "cb" and t[3] == "finish"), len(P))
+        late = defaultdict(int)
+        for t in P[fin:]:
+            if t[0] == "act" and t[-1] == "ok" and t[2] == "send" and t[4] != "none":
+                late[(int(t[4]), int(t[3]))] += 1
+            elif t[0] == "act" and t[-1] == "ok" and t[2] == "bcast":
+                for d in range(nn):
+                    if d != int(t[1]):
+                        late[(d, int(t[3]))] += 1
+        for key, c in exp.items():
+            if c - late.get(key, 0) > 0:
+                v.append("C09: message %d from a sender within range of node %d at send time was not delivered" % (key[1], key[0]))
+    return v
+
+
+def mon_C10(sc, trace):
+    """scripted draws: the k-th attempted copy is delivered iff in range and stream[k] > rate"""
+    stream = sc.get("stream")
+    if stream is None:
+        return []
+    rng, delay, fail = sc["med"]
+
+    def passes(k):
+        u = stream[k] if k < len(stream) else 0.0
+        return u > fail
+    out = [x.replace("C09:", "C10:") for x in mon_C09(sc, trace, draws_pass=passes)]
+    P = parse(trace)
+    attempts = 0
+    nn = len(sc["nodes"])
+    for t in P:
+        if t[0] == "act" and t[-1] == "ok" and t[2] == "send" and has(sc, "C"):
+            attempts += 1
+        elif t[0] == "act" and t[-1] == "ok" and t[2] == "bcast" and has(sc, "C"):
+            attempts += nn - 1
+    if P and P[-1][0] == "end":
+        drawn = int(P[-1][5])
+        want = attempts if fail > 0 else 0
+        if drawn != want:
+            out.append("C10: %d draws consumed for %d attempted copies at failure rate %r" % (drawn, attempts, fail))
+    return out
+
+
+def _dist(a, b):
+    return ((b[0] - a[0]) ** 2 + (b[1] - a[1]) ** 2 + (b[2] - a[2]) ** 2) ** 0.5
+
+
+def mon_C11(sc, trace):
+    v = []
+    if not has(sc, "M"):
+        return v
+    rate, speed0, ref = sc["mob"]
+    nn = len(sc["nodes"])
+    P = parse(trace)
+    pos = [tuple(nd["pos"]) for nd in sc["nodes"]]
+    tgt = [None] * nn
+    spd = [speed0] * nn
+    changed_at = [None] * nn          # time of the node's last goto / speed command
+    now = 0.0
+    T = has(sc, "T")
+    for t in P:
+        if t[0] == "cb":
+            now = fh(t[2])
+        if t[0] == "act" and t[-1] == "ok":
+            n = int(t[1])
+            if t[2] == "goto":
+                tgt[n] = (fh(t[3]), fh(t[4]), fh(t[5]))
+                changed_at[n] = now
+            elif t[2] == "gotogeo":
+                tgt[n] = "geo"
+                changed_at[n] = now
+            elif t[2] == "speed":
+                spd[n] = fh(t[3])
+                changed_at[n] = now
+        elif t[0] == "cb" and t[3] == "telem":
+            n = int(t[1])
+            new = (fh(t[4]), fh(t[5]), fh(t[6]))
+            old = pos[n]
+            scale = 1.0 + max(abs(x) for x in old + new)
+            eps = 1e-9 * scale
+            if (not T) or (changed_at[n] is not None and changed_at[n] == fh(t[2])):
+                # a command issued at the very instant of this update may have come just before or
+                # just after the update ran (the telemetry is delivered later): ambiguous, skip
+                pos[n] = new
+                changed_at[n] = None if T else changed_at[n]
+                continue
+            if tgt[n] is None:
+                if new != old:
+                    v.append("C11: node %d has no target but moved from %s to %s" % (n, old, new))
+            elif tgt[n] != "geo" and spd[n] >= 0 and rate >= 0:
+                g = tgt[n]
+                step = spd[n] * rate
+                rem = _dist(old, g)
+                moved = _dist(old, new)
+                if moved > step + eps + 1e-9 * step:
+                    v.append("C11: node %d moved %r in one update, more than speed*interval = %r" % (n, moved, step))
+                if rem <= step - eps and new != g:
+                    v.append("C11: node %d was within one step (%r <= %r) of its target %s but is at %s" % (n, rem, step, g, new))
+                if old == g and new != g:
+                    v.append("C11: node %d left its target %s (now at %s)" % (n, g, new))
+                if rem > step + eps:
+                    if abs(moved - step) > eps + 1e-9 * step:
+                        v.append("C11: node %d advanced %r, expected speed*interval = %r (remaining %r)" % (n, moved, step, rem))
+                    after = _dist(new, g)
+                    if abs(after - (rem - step)) > eps + 1e-9 * rem:
+                        v.append("C11: node %d is %r from its target after the update, expected %r (not on the straight segment)"
+                                 % (n, after, rem - step))
+            pos[n] = new
+            if tgt[n] == "geo":
+                pass
+    return v
+
+
+def mon_C12(sc, trace):
+    v = []
+    if not has(sc, "M"):
+        return v
+    rate = sc["mob"][0]
+    nn = len(sc["nodes"])
+    P = parse(trace)
+    T = has(sc, "T")
+    times = defaultdict(list)
+    for t in P:
+        if t[0] == "cb" and t[3] == "telem":
+            times[int(t[1])].append(fh(t[2]))
+    if T and rate > 0:
+        want = []
+        x = 0.0
+        mx = max((len(l) for l in times.values()), default=0)
+        for _ in range(mx):
+            x = x + rate
+            want.append(x)
+        for n in range(nn):
+            got = times[n]
+            if got != want[:len(got)]:
+                k = next(i for i in range(len(got)) if got[i] != want[i])
+                v.append("C12: node %d telemetry #%d at %r, the mobility updates are at %s (consecutive multiples of %r)"
+                         % (n, k, got[k], want[max(0, k - 1):k + 2], rate))
+    counts = [len(times[n]) for n in range(nn)]
+    if counts and max(counts) - min(counts) > 1:
+        v.append("C12: telemetry counts per node differ by more than one update: %s" % counts)
+    done = P and P[-1][0] == "end" and P[-1][1] == "done" and sc["maxit"] is None
+    if done and counts and max(counts) != min(counts) and sc["dur"] is not None:
+        v.append("C12: the run ended by duration but nodes got different numbers of telemetry: %s" % counts)
+    # own position: a node that never got a target reports its initial position for ever
+    moved = set()
+    for t in P:
+        if t[0] == "act" and t[2] in ("goto", "gotogeo") and t[-1] == "ok":
+            moved.add(int(t[1]))
+    for t in P:
+        if t[0] == "cb" and t[3] == "telem" and int(t[1]) not in moved:
+            n = int(t[1])
+            p = (fh(t[4]), fh(t[5]), fh(t[6]))
+            if p != tuple(float(x) for x in sc["nodes"][n]["pos"]):
+                v.append("C12: node %d never moved but its telemetry carries %s instead of its own position %s"
+                         % (n, p, tuple(sc["nodes"][n]["pos"])))
+                break
+    return v
+
+
+def project_others(trace, x):
+    """what the nodes other than x observe: their callbacks and the outcomes of their requests"""
+    out = []
+    for l in trace:
+        t = l.split()
+        if t[0] in ("cb", "act") and int(t[1]) != x:
+            out.append(l)
+    return out
+
+
+def mask_finish_time(lines):
+    out = []
+    in_finish = False
+    for l in lines:
+        t = l.split()
+        if t[0] == "cb":
+            in_finish = t[3] == "finish"
+            if in_finish:
+                t[2] = "<end-of-run>"
+                l = " ".join(t)
+        elif t[0] == "act" and in_finish and t[2] == "settimer":
+            t[4] = "<relative-to-end-of-run>"
+            t[5] = "<depends-on-end-of-run>"
+            l = " ".join(t)
+        out.append(l)
+    return out
+
+
+def mon_C18(sc, trace):
+    """needs a recording handler placed before the assertion handler (marks the end of each step)"""
+    v = []
+    if not has(sc, "A") or not recs(sc):
+        return v
+    hs = sc["handlers"]
+    r0 = "R%d" % recs(sc)[0]
+    if hs.index(r0) > hs.index("A"):
+        return v
+    nn = len(sc["nodes"])
+    types = [nd["ty"] for nd in sc["nodes"]]
+    flag = [False] * nn
+    P = parse(trace)
+    asserts = sc["asserts"]
+
+    def inst(ty, at):
+        return ty == at or (ty == 2 and at == 0)
+
+    def pred(kind, arg):
+        if kind in ("AP", "EP"):
+            return [flag[n] for n in range(nn) if inst(types[n], arg)]
+        return all(flag) if arg == "all" else any(flag)
+    ev_state = {}
+    for i, (k, a) in enumerate(asserts):
+        if k == "EP":
+            ev_state[i] = {n: False for n in range(nn) if inst(types[n], a)}
+        elif k == "ESIM":
+            ev_state[i] = False
+    expected_fail = None
+    j = recs(sc)[0]
+    got_fail = None
+    steps = 0
+    for idx, t in enumerate(P):
+        if t[0] == "act" and t[2] == "flag" and t[-1] == "ok":
+            flag[int(t[1])] = t[3] == "1"
+        elif t[0] == "hafter" and int(t[1]) == j:
+            steps += 1
+            if expected_fail is not None:
+                v.append("C18: an event was executed (iteration %s) after always-assertion %d had been violated" % (t[2], expected_fail))
+                return v
+            for i, (k, a) in enumerate(asserts):
+                if k == "AP" and not all(pred(k, a)):
+                    expected_fail = i
+                    break
+                if k == "ASIM" and not pred(k, a):
+                    expected_fail = i
+                    break
+                if k == "EP":
+                    for n in ev_state[i]:
+                        if flag[n]:
+                            ev_state[i][n] = True
+                if k == "ESIM" and pred(k, a):
+                    ev_state[i] = True
+            if expected_fail is not None:
+                nxt = next((u for u in P[idx + 1:] if u[0] in ("assertfail", "hafter", "cb")), None)
+                rest = [u for u in P[idx + 1:] if u[0] in ("assertfail",)]
+                # the assertion handler runs right after this recorder
+                k2 = idx + 1
+                while k2 < len(P) and P[k2][0] == "hafter" and int(P[k2][2]) == int(t[2]):
+                    k2 += 1
+                if k2 >= len(P) or P[k2][0] != "assertfail":
+                    v.append("C18: always-assertion %d is violated after iteration %s but the run was not interrupted there"
+                             % (expected_fail, t[2]))
+                    return v
+                if P[k2][1] != str(expected_fail):
+                    v.append("C18: assertion %s reported, the first violated one in list order is %d" % (P[k2][1], expected_fail))
+                return v
+        elif t[0] == "assertfail":
+            got_fail = (idx, t[1])
+            break
+    status = P[-1][1] if P and P[-1][0] == "end" else "?"
+    if got_fail is not None:
+        # a failure that the timeline does not justify as an always-violation: it must be an eventually-failure at finalisation
+        i = int(got_fail[1]) if got_fail[1].isdigit() else -1
+        fin_seen = any(t[0] == "cb" and t[3] == "finish" for t in P[:got_fail[0]])
+        if not fin_seen and nn > 0:
+            v.append("C18: assertion %s failed although no always-assertion is violated at that point" % got_fail[1])
+            return v
+        want = None
+        for i2, (k, a) in enumerate(asserts):
+            if k == "EP" and not all(ev_state[i2].values()):
+                want = i2
+                break
+            if k == "ESIM" and not ev_state[i2]:
+                want = i2
+                break
+        if want is None:
+            v.append("C18: eventually-assertion %s failed at the end although its predicate had been true after an executed event" % got_fail[1])
+        elif str(want) != got_fail[1]:
+            v.append("C18: assertion %s reported at the end, the first failing one in list order is %d" % (got_fail[1], want))
+        return v
+    if status == "done":
+        for i2, (k, a) in enumerate(asserts):
+            if (k == "EP" and not all(ev_state[i2].values())) or (k == "ESIM" and not ev_state[i2]):
+                v.append("C18: eventually-assertion %d never held after any executed event but the run ended without a failure" % i2)
+                break
+    return v
